@@ -247,6 +247,7 @@ func checkC15(r *core.Result) {
 	lp := prog.Pkg("lazyproto")
 	n := sharedStateRules(r, prog, lp)
 	r.Floor("field store sites classified", n, 40)
+	r.Floor("result-returning statements of *Decoder methods", perCallResults(r, prog, lp), 4)
 	r.Floor("obligations", len(r.Obligations), 25)
 	keys := []string{}
 	for k := range sharedDecodeResultFields {
@@ -258,4 +259,99 @@ func checkC15(r *core.Result) {
 var counter int
 type T struct{}
 func (t *T) M() { counter++ }`, func(fr *core.Result, fprog *core.Program, fpk *packages.Package) { sharedStateRules(fr, fprog, fpk) })
+}
+
+// perCallResults (S-percall): a method of the shared *Decoder that hands out a *DecodeResult hands out one that belongs
+// to this call (taken from the pool, freshly built, or nil) - never one stored in a field of the Decoder or in a
+// package-level variable, which every goroutine using the Decoder would receive (its accessors and Close() write it).
+func perCallResults(r *core.Result, prog *core.Program, lp *packages.Package) int {
+	info := lp.TypesInfo
+	isResult := func(t types.Type) bool {
+		p, ok := t.(*types.Pointer)
+		if !ok {
+			return false
+		}
+		n, ok := p.Elem().(*types.Named)
+		return ok && n.Obj().Name() == "DecodeResult"
+	}
+	n := 0
+	for _, f := range core.Funcs(lp) {
+		if f.Decl == nil || f.Decl.Body == nil || f.Decl.Recv == nil || f.Obj == nil {
+			continue
+		}
+		sig := f.Obj.Type().(*types.Signature)
+		rt := sig.Recv().Type()
+		if p, ok := rt.(*types.Pointer); ok {
+			rt = p.Elem()
+		}
+		if nm, ok := rt.(*types.Named); !ok || nm.Obj().Name() != "Decoder" {
+			continue
+		}
+		idx := -1
+		for j := 0; j < sig.Results().Len(); j++ {
+			if isResult(sig.Results().At(j).Type()) {
+				idx = j
+			}
+		}
+		if idx < 0 || f.Name == "(*Decoder).newBaseResult" {
+			continue
+		}
+		// shared(e): e reads a field or a package-level variable (directly or through a local assigned from one)
+		var shared func(e ast.Expr, depth int) (bool, string)
+		shared = func(e ast.Expr, depth int) (bool, string) {
+			e = ast.Unparen(e)
+			switch x := e.(type) {
+			case *ast.SelectorExpr:
+				if sel := info.Selections[x]; sel != nil && sel.Kind() == types.FieldVal {
+					return true, types.ExprString(x)
+				}
+				if v, ok := info.Uses[x.Sel].(*types.Var); ok && v.Parent() == v.Pkg().Scope() {
+					return true, types.ExprString(x)
+				}
+			case *ast.Ident:
+				v, ok := info.Uses[x].(*types.Var)
+				if !ok {
+					return false, ""
+				}
+				if v.Pkg() != nil && v.Parent() == v.Pkg().Scope() {
+					return true, x.Name
+				}
+				if depth > 4 {
+					return false, ""
+				}
+				found, what := false, ""
+				ast.Inspect(f.Decl.Body, func(nd ast.Node) bool {
+					as, ok := nd.(*ast.AssignStmt)
+					if !ok || len(as.Lhs) != len(as.Rhs) {
+						return true
+					}
+					for i, l := range as.Lhs {
+						if id, ok := l.(*ast.Ident); ok && (info.Defs[id] == v || info.Uses[id] == v) {
+							if s, w := shared(as.Rhs[i], depth+1); s {
+								found, what = true, w
+							}
+						}
+					}
+					return true
+				})
+				return found, what
+			}
+			return false, ""
+		}
+		ast.Inspect(f.Decl.Body, func(nd ast.Node) bool {
+			if _, ok := nd.(*ast.FuncLit); ok {
+				return false
+			}
+			ret, ok := nd.(*ast.ReturnStmt)
+			if !ok || len(ret.Results) != sig.Results().Len() {
+				return true
+			}
+			n++
+			s, what := shared(ret.Results[idx], 0)
+			r.Ob("S-percall", f.Name+" :: return "+types.ExprString(ret.Results[idx])+" is a result of this call", prog.Pos(ret.Pos()), !s,
+				"the result handed out is read from "+what+", which every goroutine that uses this Decoder receives: accessors and Close() of one caller write the object another caller is reading")
+			return true
+		})
+	}
+	return n
 }
